@@ -169,6 +169,9 @@ pub fn record(dir: &Path, mode: Mode, ops: &[Op], refs: &Refs, bit_flips: Option
                 syncs_seen = s;
                 // everything issued before op i is in the synced bytes; op i itself only if nothing was written after its last sync
                 prev_floor = (if unbuffered && fully_synced(dir) { i + 1 } else { i }, class_of(op));
+            } else if matches!(op, Op::Checkpoint | Op::CloseOpen | Op::DropOpen) {
+                // a checkpoint / close that returned Ok promises durability whether or not an fsync was observed
+                prev_floor = (i, class_of(op));
             }
         }
     }
@@ -189,6 +192,9 @@ pub fn record(dir: &Path, mode: Mode, ops: &[Op], refs: &Refs, bit_flips: Option
             // a sync happened during the last operation: everything issued before it is in the synced bytes
             let complete = is_boundary && unbuffered && dur == bytes.len();
             (if complete { last + 1 } else { last }, class_of(&ops[last]))
+        } else if is_boundary && matches!(ops[last], Op::Checkpoint | Op::CloseOpen | Op::DropOpen) {
+            // the checkpoint / close returned Ok: everything issued before it must survive even if no fsync was observed
+            (last, class_of(&ops[last]))
         } else {
             prev_floor
         };
@@ -424,7 +430,7 @@ pub fn prefixes(tier: vcore::Tier) -> (Vec<Vec<Op>>, J) {
     ];
     let (wide_depth, narrow_depth) = tier.pick((2, 3), (3, 5));
     let mut set: BTreeSet<Vec<Op>> = BTreeSet::new();
-    let mut add_all = |alpha: &[Op], depth: usize, set: &mut BTreeSet<Vec<Op>>| {
+    let add_all = |alpha: &[Op], depth: usize, set: &mut BTreeSet<Vec<Op>>| {
         for d in 1..=depth {
             for s in vcore::sequences(alpha.len(), d) {
                 let h: Vec<Op> = s.into_iter().map(|i| alpha[i].clone()).collect();
@@ -500,7 +506,7 @@ pub fn run(tier: vcore::Tier, slow_base: &Path, fast_base: &Path) -> Report {
         let recd = record(&dir, *mode, ops, &refs, bit_flip_policy(tier, ops, is_long));
         let _ = std::fs::remove_dir_all(&dir);
         sh.add("db_histories_recorded", 1);
-        sh.add("db_sync_events_observed", recd.syncs);
+        sh.add(&format!("db_sync_events_observed::{}", mode.name()), recd.syncs);
         if let Some((i, detail)) = &recd.diverged {
             // a clean close + reopen inside the history already lost data: that is C05's subject; the
             // crash images up to the close are still evaluated, later prefixes of this history are skipped
